@@ -22,6 +22,9 @@ import sys
 import tempfile
 import shutil
 
+sys.path.insert(0, os.path.dirname(os.path.abspath(__file__)))
+from runall import run_all  # noqa: E402
+
 VERIF = "/verif"
 REPO = "/repo"
 PY = "/venv/bin/python"
@@ -82,13 +85,11 @@ def main():
         print("/repo is not clean; refusing to apply the seed")
         return 2
     caught = {}
-    man = json.load(open(os.path.join(VERIF, "MANIFEST.json")))
     # the unchanged tree must be silent, or nothing below means anything
-    for c in man["checks"]:
-        r, oo = sh(f"{PY} -m sa.check {c['property_id']} --tier quick --no-evidence", cwd=VERIF)
-        if r != 0:
-            print(f"check {c['property_id']} is not silent on the unchanged tree (exit {r}); fix that first")
-            return 2
+    base = run_all()
+    if base:
+        print("checks not silent on the unchanged tree; fix that first:", sorted(base))
+        return 2
     rc, o = sh(f"git apply --check {patch}", cwd=REPO)
     if rc != 0:
         print("the patch does not apply to /repo HEAD any more (rebase it by hand):", o[-300:])
@@ -96,14 +97,9 @@ def main():
     rc, o = sh(f"git apply {patch}", cwd=REPO)
     try:
         if rc == 0:
-            for c in man["checks"]:
-                p = c["property_id"]
-                r, oo = sh(f"{PY} -m sa.check {p} --tier quick --no-evidence", cwd=VERIF)
-                if r != 0:
-                    lines = [l for l in oo.splitlines() if l.startswith("  ") or l.startswith("VIOLATION") or l.startswith("ANALYSIS-ERROR")]
-                    caught[p] = {"exit": r, "report": [l.strip()[:300] for l in lines[:4]]}
+            caught = run_all()
     finally:
-        sh("git checkout -- . && git reset -q", cwd=REPO)
+        sh("git checkout -- . && git reset -q && git clean -fdq liquid", cwd=REPO)
     rc, o = sh("git status --porcelain", cwd=REPO)
     assert not o.strip(), "/repo not restored: " + o
     meta["checks_that_fire"] = caught
